@@ -2,6 +2,7 @@
 pub mod adsr;
 pub mod json;
 pub mod lfo;
+pub mod midi;
 pub mod replay;
 pub mod report;
 pub mod rng;
@@ -12,6 +13,7 @@ use report::{Ctx, Report, Violation};
 pub fn run_property(ctx: &Ctx, prop: &str) -> Result<Report, String> {
     match prop {
         "C01" | "C02" | "C03" => Ok(adsr::run(ctx, prop)),
+        "C04" | "C05" | "C06" | "C18" => Ok(midi::run(ctx, prop)),
         "C10" | "C11" | "C12" => Ok(lfo::run(ctx, prop)),
         _ => Err(format!("unknown property '{}'", prop)),
     }
@@ -24,6 +26,7 @@ pub fn replay_property(prop: &str, text: &str, rep: &mut Report) -> Result<Optio
     match module.as_str() {
         "lfo" => lfo::replay(&t, prop, rep),
         "adsr" => adsr::replay(&t, prop, rep),
+        "midi" => midi::replay(&t, prop, rep),
         m => Err(format!("unknown replay module '{}'", m)),
     }
 }
